@@ -49,7 +49,8 @@ Lemma in_none (x : option N) : In x [None] -> x = None.
 Proof. intros [H|[]]. symmetry. exact H. Qed.
 
 (* the start shapes: never HTTP (1), SSH (3), Gh0st (4) *)
-Definition ids_dyn : list (option N) := [None; Some 2; Some 5; Some 6; Some 7; Some 8].
+Definition ids_dyn : list (option N) :=
+  [None; Some PROTO_STUN; Some PROTO_RPC_TCP; Some PROTO_RPC_UDP; Some PROTO_SMB1; Some PROTO_SMB2].
 Definition pat_start_dns : list pel := [anyb; anyb; GE 128].
 Definition pat_start_stun : list pel := [LT 64].
 Definition pat_start_rpc : list pel := ANYS 4 ++ LITS [0; 0; 0; 1].
@@ -584,7 +585,8 @@ Proof. intros Hf Hci Hp Ht. apply chain_bound_current; try assumption. unfold ud
 
 (* ---------- any start that is not handed to the SSH or the Gh0st responder ---------- *)
 Definition ids_all : list (option N) :=
-  [None; Some 1; Some 2; Some 3; Some 4; Some 5; Some 6; Some 7; Some 8].
+  [None; Some PROTO_HTTP; Some PROTO_STUN; Some PROTO_SSH; Some PROTO_GHOST; Some PROTO_RPC_TCP; Some PROTO_RPC_UDP;
+   Some PROTO_SMB1; Some PROTO_SMB2].
 Lemma v_any : open_ok cur_tbl [] ids_all = true. Proof. vm_compute. reflexivity. Qed.
 
 Definition pat_http_out : list pel := LITS (firstn 12 (e_http_pre the_env)).
